@@ -115,6 +115,11 @@ def cases(tier, seed):
         for rep in range(2 * reps):
             for side in ('base', 'exponent'):
                 out.append({'kind': 'powarr', 'seed': case_seed('C02', seed, 'powarr', side, D, rep), 'params': {'D': D, 'P': 1 + (D + rep) % 3, 'side': side}})
+    # in-place forms with a constant array that does NOT broadcast into the polynomial (more axes; leading axis of length P, 1, 2):
+    # x op= a cannot have the coefficients of x op a (another shape) - it has to be refused, as NumPy refuses x_0 op= a
+    for D in Ds[:3]:
+        for rep in range(reps):
+            out.append({'kind': 'inplace_wide', 'seed': case_seed('C02', seed, 'inplace_wide', D, rep), 'params': {'D': D, 'P': 1 + (D + rep) % 3}})
     return out
 
 
@@ -123,7 +128,7 @@ def required():
     for op in OPS:
         for form in ('binary', 'reflected', 'inplace'):
             req.append('%s:%s' % (op, form))
-    return req + ['pow_pyint', 'pow_npint', 'pow_float', 'rpow_float', 'pow_utpm', 'powarr:base', 'powarr:exponent']
+    return req + ['pow_pyint', 'pow_npint', 'pow_float', 'rpow_float', 'pow_utpm', 'powarr:base', 'powarr:exponent', 'inplace_wide']
 
 
 def _mk_other(rng, kind, shape, data, divisor):
@@ -296,6 +301,8 @@ def run_case(ctx, case):
         return _mixedprec(ctx, case)
     if case['kind'] == 'powarr':
         return _powarr(ctx, case)
+    if case['kind'] == 'inplace_wide':
+        return _inplace_wide(ctx, case)
     p = case['params']
     rng = gen.rng_of(case)
     op, form, kind, rel, D, P, data = p['op'], p['form'], p['other'], p['rel'], p['D'], p['P'], p['data']
@@ -465,6 +472,37 @@ def _powarr(ctx, case):
             if not (e <= 1e-11):
                 ctx.violation(mech + ':value', dict(info, index=list(idx), direction=pp, relative_error=e, array_entry=float(ab[idx]))); return
     ctx.ok(mech, ('powarr', side, D, P, len(xs), len(ashp), str(np.dtype(dt)), cplx), noise=worst)
+
+
+def _inplace_wide(ctx, case):
+    """x op= a with a constant array a whose broadcast against x is larger than x: "the in-place forms give the same coefficients as
+    the corresponding binary expression" cannot hold (x op a has another shape), so the only sound outcomes are an exception (what
+    NumPy does for x_0 op= a) or - never observed - a result equal to the binary expression."""
+    p = case['params']; rng = gen.rng_of(case)
+    D, P = p['D'], p['P']
+    for opname in ('iadd', 'isub', 'imul', 'itruediv'):
+        for xs in ((3,), (2, 3), ()):
+            for k in (P, 1, 2, 3):
+                xd = gen.series_data(rng, D, P, xs, 'R', 'random', False)
+                a = rng.uniform(1.0, 2.0, size=(k,) + xs)
+                x0 = xd[0, 0].copy()
+                try:
+                    getattr(operator, opname)(x0, a); numpy_accepts = True
+                except Exception:
+                    numpy_accepts = False
+                if numpy_accepts:          # (k = 1 with a scalar-shaped x is no widening for NumPy either ... it is: shape () vs (1,) raises)
+                    continue
+                x = UTPM(xd.copy())
+                try:
+                    r = getattr(operator, opname)(x, a)
+                except Exception:
+                    ctx.ok('inplace_wide', ('inplace_wide', opname, len(xs), k == P, 'refused')); continue
+                b = getattr(operator, opname[1:])(UTPM(xd.copy()), a)
+                if not isinstance(r, UTPM) or r.data.shape != b.data.shape or not np.allclose(r.data, b.data, rtol=1e-12, atol=0):
+                    ctx.violation('inplace_wide:%s:accepted-and-differs-from-binary' % opname,
+                                  {'op': opname, 'D': D, 'P': P, 'xshape': list(xs), 'array_shape': list(a.shape),
+                                   'inplace_result_shape': list(getattr(getattr(r, 'data', None), 'shape', ())), 'binary_result_shape': list(b.data.shape)}); return
+                ctx.ok('inplace_wide', ('inplace_wide', opname, len(xs), k == P, 'equal-to-binary'))
 
 
 def _pow(ctx, case):
